@@ -28,20 +28,27 @@ const (
 	kFetched                      // back end only, then pulled into the local cache by a read
 	kFetchedMis                   // same, then another size requested
 	kDup                          // the digest of an earlier position again
+	kAbsentFault                  // nowhere, and the back end answers the existence check with a fault
+	kBackendFault                 // back end only, and the back end answers the existence check with a fault
 	numKinds
 )
 
 var kindNames = [numKinds]string{"local", "local-big", "both", "backend", "backend-edge", "absent", "local-mis", "both-mis",
-	"backend-mis", "backend-over", "backend-over-smallreq", "empty", "empty-wrong-size", "fetched", "fetched-mis", "dup"}
+	"backend-mis", "backend-over", "backend-over-smallreq", "empty", "empty-wrong-size", "fetched", "fetched-mis", "dup",
+	"absent-backend-fault", "backend-fault"}
 
 // one letter per kind for compact layout strings in witnesses
-var kindCodes = [numKinds]byte{'L', 'G', 'X', 'B', 'E', '-', 'l', 'x', 'b', 'O', 'o', '0', 'z', 'F', 'f', 'D'}
+var kindCodes = [numKinds]byte{'L', 'G', 'X', 'B', 'E', '-', 'l', 'x', 'b', 'O', 'o', '0', 'z', 'F', 'f', 'D', '!', '?'}
+
+const kindCodeLegend = "L local, G local>limit, X both, B backend, E backend=limit, - absent, l local other size, x both other size, " +
+	"b backend other size, O backend>limit, o backend>limit small request, 0 empty, z empty hash size>0, F fetched, f fetched other size, " +
+	"D duplicate, ! absent + back end answers with a fault, ? backend + back end answers with a fault"
 
 func (k kind) String() string { return kindNames[k] }
 
 func (k kind) needsBackend() bool {
 	switch k {
-	case kBoth, kBackend, kBackendEdge, kBothMis, kBackendMis, kBackendOver, kBackendOverSmall, kFetched, kFetchedMis:
+	case kBoth, kBackend, kBackendEdge, kBothMis, kBackendMis, kBackendOver, kBackendOverSmall, kFetched, kFetchedMis, kAbsentFault, kBackendFault:
 		return true
 	}
 	return false
@@ -49,7 +56,7 @@ func (k kind) needsBackend() bool {
 
 func (k kind) storable() bool {
 	switch k {
-	case kAbsent, kEmpty, kEmptyWrong, kDup:
+	case kAbsent, kEmpty, kEmptyWrong, kDup, kAbsentFault:
 		return false
 	}
 	return true
@@ -75,10 +82,14 @@ type posSpec struct {
 	fetchVia int
 	del      bool          // remove from the back end after the fetch, when the back end allows it
 	delay    time.Duration // latency of the back end's answer for a fresh back-end blob
+	fault    int           // fault kinds: index into the back end's fault table
+	faultLen bool          // fault kinds: an HTTP error answer states a Content-Length
 }
 
 type caseSpec struct {
 	idx      int
+	slice    string // "main" | "fault" | "binary"
+	faultSel int    // fault slice: the fault of this case's fault positions; -1 = drawn per position; -2 = no fault positions
 	cfg      int
 	api      string // "disk" (disk.Cache.FindMissingCasBlobs) | "grpc" (CAS.FindMissingBlobs)
 	layout   string
@@ -135,7 +146,7 @@ func withoutBackend(k kind) kind {
 		return kLocal
 	case kBothMis:
 		return kLocalMis
-	case kBackend, kBackendEdge, kBackendMis, kBackendOver, kBackendOverSmall, kFetched, kFetchedMis:
+	case kBackend, kBackendEdge, kBackendMis, kBackendOver, kBackendOverSmall, kFetched, kFetchedMis, kAbsentFault, kBackendFault:
 		return kAbsent
 	}
 	return k
@@ -197,15 +208,57 @@ func itoa(n int) string {
 	return string(b[i:])
 }
 
-// genCase is a pure function of (seed, case index, configuration table).
-func genCase(seed int64, idx int, cfgs []*config) *caseSpec {
-	rng := rand.New(rand.NewPCG(uint64(seed)*0x9E3779B97F4A7C15+0xC10, uint64(idx)))
-	cs := &caseSpec{idx: idx, seed: rng.Uint64()}
+// Case indices of the slices (the index selects the case's PRNG stream).
+const (
+	faultSliceBase  = 1 << 24
+	binarySliceBase = 2 << 24
+)
 
+var faultLayouts = []string{"iid", "iid", "iid", "tail-local", "all-absent", "one-odd", "one-present", "alternate"}
+
+// genCase generates case idx of the main slice: a pure function of (seed, case
+// index, configuration table).
+func genCase(seed int64, idx int, cfgs []*config) *caseSpec {
 	// Configuration: weighted round robin so every configuration gets its share in any tier.
-	cs.cfg = cfgOrder[idx%len(cfgOrder)]
+	return genCaseFor(seed, idx, "main", cfgOrder[idx%len(cfgOrder)], idx/len(cfgOrder), -2, cfgs)
+}
+
+// genFaultCase generates case i of the fault slice: the real httpproxy /
+// grpcproxy configurations in turn, each with every fault of its back end (and
+// "mixed") in turn.
+func genFaultCase(seed int64, i int, targets []int, cfgs []*config) *caseSpec {
+	c := targets[i%len(targets)]
+	round := i / len(targets)
+	nf := len(cfgs[c].faultTable())
+	sel := round % (nf + 1)
+	if sel == nf {
+		sel = -1
+	}
+	return genCaseFor(seed, faultSliceBase+i, "fault", c, round, sel, cfgs)
+}
+
+// genBinaryCase generates case i of the binary slice: the instances of the real
+// executable in turn; every third case of an instance has fault positions.
+func genBinaryCase(seed int64, i int, targets []int, cfgs []*config) *caseSpec {
+	c := targets[i%len(targets)]
+	round := i / len(targets)
+	sel := -2
+	if round%3 == 2 {
+		nf := len(cfgs[c].faultTable())
+		if sel = (round / 3) % (nf + 1); sel == nf {
+			sel = -1
+		}
+	}
+	return genCaseFor(seed, binarySliceBase+i, "binary", c, round, sel, cfgs)
+}
+
+// genCaseFor is a pure function of its arguments.
+func genCaseFor(seed int64, idx int, slice string, cfgIdx, round, faultSel int, cfgs []*config) *caseSpec {
+	rng := rand.New(rand.NewPCG(uint64(seed)*0x9E3779B97F4A7C15+0xC10, uint64(idx)))
+	cs := &caseSpec{idx: idx, seed: rng.Uint64(), slice: slice, faultSel: faultSel}
+	cs.cfg = cfgIdx
 	cfg := cfgs[cs.cfg]
-	round := idx / len(cfgOrder)
+	withFaults := faultSel != -2 && len(cfg.faultTable()) > 0
 
 	// Length: every second round takes the next fixed length (the cycle length 12 and the
 	// configuration cycle are walked independently, so every pair occurs), the others are random.
@@ -221,6 +274,9 @@ func genCase(seed int64, idx int, cfgs []*config) *caseSpec {
 			cs.n = 400 + rng.IntN(601)
 		}
 	}
+	if withFaults && cs.n == 0 {
+		cs.n = 1 // a case of the fault slice has at least one digest with a scripted fault
+	}
 	cs.lenClass = lenClassOf(cs.n)
 	n := cs.n
 
@@ -234,6 +290,16 @@ func genCase(seed int64, idx int, cfgs []*config) *caseSpec {
 	}
 	cs.sharePtr = rng.IntN(2) == 0
 	cs.layout = layouts[rng.IntN(len(layouts))]
+	if withFaults {
+		cs.layout = faultLayouts[rng.IntN(len(faultLayouts))]
+	}
+	if cfg.isBinary() {
+		// Only the network interfaces of the executable exist.
+		cs.api = "grpc"
+		if cs.via == "api" {
+			cs.via = "grpc"
+		}
+	}
 
 	w := weightsBackend
 	if !cfg.hasBackend() {
@@ -245,6 +311,9 @@ func genCase(seed int64, idx int, cfgs []*config) *caseSpec {
 		w[kLocal] *= 6
 	case 1:
 		w[kLocal] /= 4
+		w[kAbsent] *= 2
+	}
+	if withFaults {
 		w[kAbsent] *= 2
 	}
 
@@ -304,6 +373,9 @@ func genCase(seed int64, idx int, cfgs []*config) *caseSpec {
 		} else if rng.IntN(3) == 0 {
 			base = kBackend
 		}
+		if withFaults && cs.layout == "one-odd" {
+			odd = kAbsent // becomes the one digest the back end answers for with a fault
+		}
 		for p := range kinds {
 			kinds[p] = base
 		}
@@ -320,6 +392,9 @@ func genCase(seed int64, idx int, cfgs []*config) *caseSpec {
 		dupRate = 0
 	case "alternate":
 		a, b := pick(rng, oddPresentKinds), pick(rng, oddKinds)
+		if withFaults {
+			b = kAbsent
+		}
 		period := 1 + rng.IntN(3)
 		for p := range kinds {
 			if (p/period)%2 == 0 {
@@ -329,6 +404,34 @@ func genCase(seed int64, idx int, cfgs []*config) *caseSpec {
 			}
 		}
 		dupRate = 2
+	}
+	if withFaults {
+		// Most absent digests (all of them in the one-odd layout) and some back-end-only
+		// ones get a fault scripted for the back end's existence check.
+		rate := 70
+		if cs.layout == "one-odd" {
+			rate = 100
+		}
+		for p := range kinds {
+			switch {
+			case kinds[p] == kAbsent && rng.IntN(100) < rate:
+				kinds[p] = kAbsentFault
+			case kinds[p] == kBackend && rng.IntN(100) < 20:
+				kinds[p] = kBackendFault
+			}
+		}
+		some := false
+		for _, k := range kinds {
+			some = some || k == kAbsentFault
+		}
+		if !some {
+			// At least one absent digest with a fault (outside the all-local tail, if there is one).
+			p := rng.IntN(n)
+			if cs.layout == "tail-local" && lastBatch > 0 {
+				p = rng.IntN(lastBatch)
+			}
+			kinds[p] = kAbsentFault
+		}
 	}
 	if !cfg.hasBackend() {
 		for p := range kinds {
@@ -344,6 +447,13 @@ func genCase(seed int64, idx int, cfgs []*config) *caseSpec {
 		ps.fetchVia = rng.IntN(numFetchVia)
 		ps.del = rng.IntN(2) == 0
 		ps.delay = pickDelay(rng)
+		if withFaults {
+			ps.fault = faultSel
+			if faultSel < 0 {
+				ps.fault = rng.IntN(len(cfg.faultTable()))
+			}
+			ps.faultLen = rng.IntN(2) == 0
+		}
 		switch ps.kind {
 		case kLocalBig, kBackendOver, kBackendOverSmall:
 			ps.size = cfg.maxProxy + 1 + rng.IntN(1500)
@@ -389,13 +499,13 @@ func genCase(seed int64, idx int, cfgs []*config) *caseSpec {
 	order := rng.Perm(n)
 	for _, p := range order {
 		k := cs.pos[p].kind
-		if k != kFetched && k != kFetchedMis {
+		if k != kFetched && k != kFetchedMis && k != kBackendFault {
 			continue
 		}
 		if budget > 0 {
 			cs.pos[p].fresh = true
 			budget--
-		} else if k == kFetched {
+		} else if k == kFetched || k == kBackendFault {
 			cs.pos[p].kind = kBackend
 		} else {
 			cs.pos[p].kind = kBackendMis
